@@ -1572,6 +1572,38 @@ class Engine:
             self.frame.env.update(saved)
             vt = type_of(vv)
             return SDict(src.k, vt, src.dom, [z3.Lambda([kx], ops.term(f) if not is_sym(f) else f) for f in vt.flat(vv)])
+        if isinstance(it, SList) and isinstance(node.key, ast.Name) and isinstance(g.target, ast.Name) and node.key.id == g.target.id \
+                and len(it.t.sorts()) == 1:
+            # {x: f(x) for x in xs} over a symbolic list: the keys are the members of xs, values point-wise
+            ks = it.t.sorts()[0]
+            kx = z3.Const(f"_dck{node.lineno}", ks)
+            j = z3.Int("_dcj")
+            member = z3.Exists([j], z3.And(0 <= j, j < it.n, it.comps[0][j] == kx))
+            v = node.value
+            if isinstance(v, ast.Call) and isinstance(v.func, ast.Attribute) and v.func.attr == "index" and len(v.args) == 1 \
+                    and isinstance(v.args[0], ast.Name) and v.args[0].id == g.target.id and self.ev(v.func.value) is it:
+                # {x: xs.index(x) for x in xs}: the first position of every member (an uninterpreted function with its defining axioms)
+                tag = f"firstidx{self.counters.get('firstidx', 0)}"
+                self.counters["firstidx"] = self.counters.get("firstidx", 0) + 1
+                fi = z3.Function(tag, ks, z3.IntSort())
+                i2 = z3.Int("_dci")
+                self.assume(z3.ForAll([kx], z3.Implies(member, z3.And(0 <= fi(kx), fi(kx) < it.n, it.comps[0][fi(kx)] == kx))))
+                self.assume(z3.ForAll([i2], z3.Implies(z3.And(0 <= i2, i2 < it.n), fi(it.comps[0][i2]) <= i2)))
+                return SDict(it.t, TInt, z3.Lambda([kx], member), [z3.Lambda([kx], fi(kx))])
+            saved = dict(self.frame.env)
+            self.assign(g.target, kx)
+            n_alt, n_pc, n_cnt = len(self.alternatives), len(self.pc), dict(self.counters)
+            self.pc.append(member)
+            vv = self.ev(node.value)
+            del self.pc[n_pc:]
+            if len(self.alternatives) != n_alt:
+                raise Unsupported("branching inside a dict comprehension over symbolic data")
+            if self.counters != n_cnt:
+                raise Unsupported("dict comprehension whose value expression introduces ghost constants")
+            self.frame.env.clear()
+            self.frame.env.update(saved)
+            vt = type_of(vv)
+            return SDict(it.t, vt, z3.Lambda([kx], member), [z3.Lambda([kx], ops.term(f) if not is_sym(f) else f) for f in vt.flat(vv)])
         xs = self.as_sequence(it)
         i = z3.Int(f"_dc{node.lineno}")
         saved = dict(self.frame.env)
